@@ -901,6 +901,9 @@ class ConvertInstance:
             IdMap() if template is None else template
         )
 
+        # roots of temporaries that are connected to ports of entity instances
+        self._port_temporaries = IdSet()
+
     def lookup_template(self, source: out.EntityTemplate) -> ir.EntityTemplate | None:
         if source in self._entity_templates:
             return self._entity_templates[source]
@@ -1030,8 +1033,13 @@ class ConvertInstance:
         search_invalid_temporaries(ctx.code())
 
     @staticmethod
-    def cleanup_unused(ctx: ir.Context):
+    def cleanup_unused(ctx: ir.Context, keep: IdSet | None = None):
         used_temporaries = IdSet()
+
+        if keep is not None:
+            # temporaries that are read outside of the context
+            # (actuals of entity instances)
+            used_temporaries.update(keep)
 
         def find_used_temp(obj, access: AccessFlags):
             if access.is_read() and isinstance(obj, Temporary):
@@ -1126,6 +1134,12 @@ class ConvertInstance:
             if isinstance(inp, out.Entity):
                 template = self.apply(inp.template())
 
+                # Temporaries used as actuals are read by the instance i.e. outside
+                # of the context that defines them. They are not unused.
+                for actual in inp.port_definitions().values():
+                    if isinstance(actual, Temporary):
+                        self._port_temporaries.add(actual._root)
+
                 return ir.Entity(
                     template,
                     inp._info.name,
@@ -1163,7 +1177,9 @@ class ConvertInstance:
                 result.visit_referenced_objects(check_variables_and_temporaries)
 
                 if result.attributes.get("cleanup_unused", True):
-                    result = ConvertInstance.cleanup_unused(result)
+                    result = ConvertInstance.cleanup_unused(
+                        result, self._port_temporaries
+                    )
 
                 if result.attributes.get("zero_init_temporaries", False):
                     # only used for unit tests
@@ -1184,7 +1200,9 @@ class ConvertInstance:
                 ConvertInstance.detect_uninitialized_temporaries(result)
 
                 if result.attributes.get("cleanup_unused", True):
-                    result = ConvertInstance.cleanup_unused(result)
+                    result = ConvertInstance.cleanup_unused(
+                        result, self._port_temporaries
+                    )
                 if result.attributes.get("cleanup_bool_cast", True):
                     result = ConvertInstance.cleanup_bool_cast(result)
                 if result.attributes.get("zero_init_temporaries", False):
